@@ -11,14 +11,15 @@ const char *vf_harness_name() { return "heap"; }
 namespace {
 struct Elem {
     int id, prio, cleared;
+    size_t slot;
     struct cstl_heap_node hn;
 };
 enum Op { PUSH, POP, GET, CLEAR, AUDIT, NOPS };
 const char *OPN[] = {"push", "pop", "get", "clear", "audit"};
 const uint8_t PROFILES[][NOPS] = {
-    {1, 1, 1, 1, 1}, {6, 2, 1, 0, 1}, {3, 4, 1, 0, 1}, {5, 5, 1, 1, 0}, {6, 1, 0, 2, 0},
+    {1, 1, 1, 1, 1}, {6, 2, 1, 0, 1}, {3, 4, 1, 0, 1}, {5, 5, 1, 1, 0}, {6, 1, 0, 2, 0}, /* fill */ {14, 1, 1, 0, 0},
 };
-const int NPROFILES = 5;
+const int NPROFILES = 6;
 const int KEYS[] = {1, 2, 3, 5, 16, 1000};
 const size_t MAXLIVE[] = {1000000, 3, 5, 7, 9, 11, 15, 4};
 
@@ -33,6 +34,8 @@ int cmp_p(int a, int b)
     case 2: return a < b ? -2000000000 : a > b ? 2000000000 : 0;
     }
 }
+// the position of a priority in the order the comparison function induces
+long rank_of(int prio) { return g_cmp_kind == 1 ? -(long)prio : (long)prio; }
 int cmp_cb(const void *a, const void *b, void *p)
 {
     CHECK_NOTHROW(p == &g_priv_token, "C07.cmp.priv", "compare function received a different priv pointer");
@@ -40,19 +43,21 @@ int cmp_cb(const void *a, const void *b, void *p)
 }
 
 struct Heap;
-struct ClearCtx { Heap *h; std::vector<Elem *> *expect; size_t calls; bool bad; };
+struct ClearCtx { Heap *h; std::unordered_set<Elem *> *expect; size_t calls; bool bad; };
 ClearCtx *g_clear_ctx;
 
 struct Heap {
     const char *tag;
     struct cstl_heap h;
-    std::vector<Elem *> held;
+    std::unordered_set<Elem *> held;          // elements in the heap (pointer identity)
+    std::map<long, size_t> ranks;              // rank (position in the comparison order) -> how many held elements have it
     std::vector<Elem *> all;
     int next_id;
     void init(const char *t)
     {
         tag = t;
         held.clear();
+        ranks.clear();
         next_id = 0;
         cstl_heap_init(&h, cmp_cb, &g_priv_token, offsetof(Elem, hn));
     }
@@ -63,13 +68,15 @@ struct Heap {
         e->id = next_id++;
         e->prio = prio;
         e->cleared = 0;
+        e->slot = all.size();
         all.push_back(e);
         return e;
     }
     void kill(Elem *e)
     {
-        auto it = std::find(all.begin(), all.end(), e);
-        if (it != all.end()) { *it = all.back(); all.pop_back(); }
+        // O(1) removal: elements remember their slot in `all`
+        size_t i = e->slot;
+        if (i < all.size() && all[i] == e) { all[i] = all.back(); all[i]->slot = i; all.pop_back(); }
         memset(e, 0xDD, sizeof *e);
         free(e);
     }
@@ -84,9 +91,8 @@ void clear_cb(void *obj, void *priv)
     c->calls++;
     (void)priv;
     Elem *e = (Elem *)obj;
-    bool found = false;
-    for (Elem *x : *c->expect) if (x == e) found = true;
-    if (!found) { c->bad = true; return; }
+    if (!c->expect->count(e)) { c->bad = true; return; }    // unknown or already handed over: do not touch
+    c->expect->erase(e);
     if (++e->cleared > 1) { c->bad = true; return; }
     c->h->kill(e);
 }
@@ -148,7 +154,8 @@ void apply(Heap &hp, CaseCtx &cx, int op, uint8_t a, uint8_t b, int K, size_t ma
         int prio = (int)((a | (b << 8)) % (unsigned)K);
         Elem *e = hp.mk(prio);
         LIB(cstl_heap_push(&hp.h, e));
-        hp.held.push_back(e);
+        hp.held.insert(e);
+        hp.ranks[rank_of(prio)]++;
         if (cx.popped) cx.push_after_pop = true;
         TRACE("%s push e%d(p%d) n=%zu", hp.tag, e->id, prio, hp.held.size());
         break;
@@ -162,18 +169,16 @@ void apply(Heap &hp, CaseCtx &cx, int op, uint8_t a, uint8_t b, int K, size_t ma
         CHECK((r != nullptr) == !hp.held.empty(), "C07.top.iff", "%s %s returned %s on a heap of %zu elements", hp.tag, OPN[op],
               r ? "an element" : "NULL", hp.held.size());
         if (r) {
-            auto it = std::find(hp.held.begin(), hp.held.end(), (Elem *)r);
+            auto it = hp.held.find((Elem *)r);
             CHECK(it != hp.held.end(), "C07.top.member", "%s %s returned a pointer that is not an element in the heap", hp.tag, OPN[op]);
-            int ties = 0;
-            for (Elem *x : hp.held) {
-                int c = cmp_p(((Elem *)r)->prio, x->prio);
-                CHECK(c >= 0, "C07.top.max", "%s %s returned p%d but p%d is in the heap and compares greater", hp.tag, OPN[op],
-                      ((Elem *)r)->prio, x->prio);
-                if (c == 0) ties++;
-            }
+            long top = hp.ranks.rbegin()->first, got = rank_of(((Elem *)r)->prio);
+            CHECK(got == top, "C07.top.max", "%s %s returned p%d but an element comparing greater is in the heap", hp.tag, OPN[op],
+                  ((Elem *)r)->prio);
+            size_t ties = hp.ranks.rbegin()->second;
             if (op == POP) {
                 if (hp.held.size() >= 4 && ties >= 2) { cx.pop4ties = true; CNT("class.pop_ties4"); }
                 hp.held.erase(it);
+                if (--hp.ranks[got] == 0) hp.ranks.erase(got);
                 hp.kill((Elem *)r);
                 cx.popped = true;
             }
@@ -181,7 +186,8 @@ void apply(Heap &hp, CaseCtx &cx, int op, uint8_t a, uint8_t b, int K, size_t ma
         break;
     }
     case CLEAR: {
-        std::vector<Elem *> expect = hp.held;
+        std::unordered_set<Elem *> expect(hp.held.begin(), hp.held.end());
+        hp.ranks.clear();
         ClearCtx cc{&hp, &expect, 0, false};
         g_clear_ctx = &cc;
         size_t n = hp.held.size();
@@ -238,7 +244,7 @@ void vf_run(const uint8_t *data, size_t len)
         if (o == 0xFE) { if (g_want_state) { g_state = peek_state(H); marked = true; } continue; }
         int op = tab[o % tab.size()];
         nops++;
-        bool shape = g_want_state ? my >= last_idx : (H.held.size() <= 40 || (my % 16) == 15);
+        bool shape = g_want_state ? my >= last_idx : (H.held.size() <= 40 || (H.held.size() <= 2000 ? (my % 16) == 15 : (my % 4096) == 4095));
         Obs oa, ob;
         bool first_clear = c15 && op == CLEAR && !twin;
         if (!twin && !first_clear) { apply(H, cx, op, a, b, K, maxlive, nullptr, shape); continue; }
@@ -290,7 +296,9 @@ void vf_gen(Rng &r, std::vector<uint8_t> &out)
     out.push_back(r.byte());
     out.push_back(r.chance(5, 6) ? 0 : r.byte());
     out.push_back(c15 ? (r.chance(2, 3) ? 4 : r.byte()) : r.byte());
-    size_t n = r.chance(1, 2) ? 1 + r.below(24) : r.chance(7, 8) ? 1 + r.below(300) : 1 + r.below(3000);
+    // mostly short; some long; rarely huge (heaps beyond 2^16 elements: every width the slot navigation could truncate to)
+    size_t n = r.chance(1, 2) ? 1 + r.below(24) : r.chance(7, 8) ? 1 + r.below(300) : r.chance(2047, 2048) ? 1 + r.below(3000) : 150000 + r.below(160000);
+    if (n > 3000) { out[2] = 0; out[3] = 5; }     // unbounded, fill profile
     for (size_t i = 0; i < n; i++) { out.push_back(r.byte() % 251); out.push_back(r.byte()); out.push_back(r.byte()); }
 }
 
